@@ -15,14 +15,15 @@ from . import c01
 PID = "C05"
 RULE = ("Hypothesis: general graphs x {all_classes_mode, target_classes} x switches x thresholds that empty shapes x remove_empty_shapes "
         "x namespaces_dict colliding with the default shape prefixes ('', weso-s, shapes, w-shapes) x custom shapes_namespace x "
-        "namespaces_to_ignore x input as N-Triples or as Turtle declaring its own prefixes (incl. the empty prefix) x {ShExC, SHACL}.  "
+        "namespaces_to_ignore x input as N-Triples or as Turtle declaring its own prefixes (incl. the empty prefix) x {ShExC, SHACL}; plus (1 in 5) shape-map "
+        "chains: shapes labelled by full IRIs referencing each other in a chain whose tail is empty, so that removal must cascade.  "
         "Oracle ShExC: grammar-based reader accepts the text, every used prefix declared, no prefix bound to two namespaces, labels "
         "unique, every @reference defined.  Oracle SHACL: rdflib parses it; every sh:node object is a sh:NodeShape; every property "
         "shape has exactly one path.  Non-trivial: the document has >=1 shape reference and (a removed shape, a prefix collision, "
         "a custom namespace or Turtle-declared prefixes); distinct by SHA-1 of the case.")
 ASSUMPTIONS = c01.ASSUMPTIONS + ["rdflib 6.0.2 Turtle parser as the SHACL syntax oracle"]
 BUDGET = {"quick": {"examples": 12000, "wall": 150}, "thorough": {"examples": 120000, "wall": 3000}}
-FLOORS = {"nontrivial": 0.15, "shacl": 0.2, "shexc": 0.3}
+FLOORS = {"nontrivial": 0.15, "shacl": 0.12, "shexc": 0.3, "shape-map-chain": 0.1, "cascade": 0.01}
 SH = "http://www.w3.org/ns/shacl#"
 NS_DICTS = [
     None, None,
@@ -36,7 +37,42 @@ TTL_PREFIXES = [{"": "http://ex.org/"}, {"ex": "http://ex.org/", "": "http://ex.
 
 
 @st.composite
+def chain_case(draw):
+    """shape-map shapes referencing each other in a chain whose tail has no constraints: removing the empty tail must
+    cascade (every shape left with only a reference to a removed shape goes too) and never leave a dangling reference"""
+    k = draw(st.integers(2, 5))
+    nodes = ["http://ex.org/n%d" % i for i in range(k)]
+    triples = []
+    for i in range(k - 1):
+        triples.append([["iri", nodes[i]], gg.prop_iri(0), ["iri", nodes[i + 1]]])
+        if draw(st.integers(0, 3)) == 0:        # a second member of the next shape, so that a threshold can bite
+            triples.append([["iri", nodes[i]], gg.prop_iri(0), ["iri", "http://ex.org/m%d" % (i + 1)]])
+    extra = draw(st.lists(st.integers(0, k - 1), min_size=1, max_size=k, unique=True))
+    for i in extra:
+        if i != k - 1 or draw(st.booleans()):
+            triples.append([["iri", nodes[i]], gg.prop_iri(1), gg.make_lit("str", i % 3)])
+    perm = draw(st.permutations(range(len(triples))))
+    triples = [triples[i] for i in perm]
+    order = list(draw(st.permutations(range(k))))
+    items = []
+    for i in order:
+        sel = {"kind": "node", "iri": nodes[i]} if draw(st.integers(0, 3)) else {"kind": "focus", "pos": "o", "p": gg.prop_iri(0), "other": nodes[i - 1] if i else nodes[0]}
+        if sel["kind"] == "focus" and i == 0:
+            sel = {"kind": "node", "iri": nodes[0]}
+        items.append({"sel": sel, "label": "<http://sh.org/S%d>" % i})
+    cfg = draw(gg.switches())
+    cfg["instances_report_mode"] = "mixed"
+    if draw(st.integers(0, 3)) == 0:
+        cfg["disable_or_statements"] = False
+    return {"g": {"triples": triples, "classes": [], "inst_prop": RDF_TYPE}, "cfg": cfg, "items": items,
+            "thr": draw(st.sampled_from([0, 0, 0.5, 0.6, 1])), "input": "nt", "format": draw(st.sampled_from(["ShEx", "ShEx", "Shacl"])),
+            "with_all_classes": False}
+
+
+@st.composite
 def cases(draw):
+    if draw(st.integers(0, 4)) == 0:
+        return draw(chain_case())
     g = draw(gg.general(inst_props=(RDF_TYPE, RDF_TYPE, RDF_TYPE, "http://ex.org/isA")))
     cfg = draw(gg.switches())
     cfg["instances_report_mode"] = draw(st.sampled_from(["mixed", "ratio"]))
@@ -112,7 +148,36 @@ def check_shacl(text):
     return probs, g
 
 
+def check_chain(case):
+    from .. import selectors
+    from . import c10
+    triples = triples_from_json(case["g"]["triples"])
+    kw = dict(case["cfg"])
+    kw["raw_graph"] = to_nt(triples)
+    kw["namespaces_dict"] = dict(c10.NSD)
+    kw["shape_map_raw"] = "\n".join("%s@%s" % (selectors.render(it["sel"], c10.NSD, [0, 0, 0, 0]), it["label"]) for it in case["items"])
+    fmt = case["format"]
+    text, crash = sut.shex(kw, acceptance_threshold=case["thr"], output_format=fmt)
+    if crash is not None:
+        return discard("crash:" + crash.bucket)
+    labels = {"shexc" if fmt == "ShEx" else "shacl", "shape-map-chain"}
+    if fmt == "ShEx":
+        probs, doc = check_shexc(text)
+        if doc is not None and len(doc.shapes) < len(case["items"]):
+            labels.add("shape-removed")
+            if len(doc.shapes) < len(case["items"]) - 1:
+                labels.add("cascade")
+    else:
+        probs, g = check_shacl(text)
+    labels.add("nontrivial")
+    if probs:
+        return violation("; ".join(probs[:3]) + "\nshape map:\n%s\n--- %s output ---\n%s" % (kw["shape_map_raw"], fmt, text[:3000]), labels, True)
+    return ok(labels, True)
+
+
 def check(case):
+    if "items" in case:
+        return check_chain(case)
     kw, triples = common.base_kwargs(case)
     cfg = case["cfg"]
     if "namespaces_dict" in cfg:
